@@ -1039,6 +1039,475 @@ theorem write_returns (s : St) (hh : Nat) (hp : s.pump = .wr hh) :
     (step s .writeOk).isSome = true ∧ (step s .writeFail).isSome = true := by
   simp [step, hp]
 
+
+/-! ## C07 progress clause for the server dispatcher: no lost wake-up (every interleaving)
+
+`Dispatchable`: the client's current queue is not empty and nothing is pending. `Tok`: somebody is on the way to make the
+pump look at this client - a wake-up in the request channel, the client's ready token in the slot or with a goroutine
+waiting for the slot, a sender between push and wake-up, a disconnection before its wake-up, the reader or the pump about
+to post the ready signal, or the pump in the middle of an iteration for this client that has not decided yet. The
+invariant `Wake`: dispatchable implies a token (`w`), and an iteration that works on a queue object which is no longer the
+client's is followed by another wake-up (`r`). Needs nothing of `Inv`. -/
+
+def Dispatchable (s : St) : Prop := ∃ i, s.cur = some i ∧ getQ s.qs i ≠ [] ∧ s.pend = none
+
+def pumpTok : Pump → Bool
+  | .rq1 | .rq2 _ | .rd1 | .rd2 | .g1 _ | .g2 _ | .d1 | .d2 _ | .d3 _ | .cp3 _ _ | .tmOS | .wfOS _ => true
+  | _ => false
+
+def readerTok : Reader → Bool
+  | .c3 _ => true
+  | _ => false
+
+def Tok (s : St) : Prop :=
+  s.reqs > 0 ∨ s.ready = .me ∨ s.sigw > 0 ∨ s.mid > 0 ∨ s.link = .dl2 ∨ readerTok s.reader = true ∨ pumpTok s.pump = true
+
+def heldQ : Pump → Option Nat
+  | .rq2 q | .g1 q | .g2 q | .d2 q => some q
+  | _ => none
+
+structure Wake (s : St) : Prop where
+  w : Dispatchable s → Tok s
+  r : ∀ q, heldQ s.pump = some q → s.cur = some q ∨ s.reqs > 0 ∨ s.link = .dl2
+
+theorem wake_init (t d k : Bool) : Wake { tmo := t, dropW := d, sendLock := k } := by
+  refine ⟨?_, ?_⟩
+  · intro ⟨i, h, _⟩; cases h
+  · intro q h; simp [heldQ] at h
+
+theorem signal_tok (s : St) : (signal s).ready = .me ∨ (signal s).sigw > 0 := by
+  unfold signal; split
+  · left; rfl
+  · right; simp
+
+@[simp] theorem signal_reqs (s : St) : (signal s).reqs = s.reqs := by unfold signal; split <;> rfl
+@[simp] theorem signal_mid (s : St) : (signal s).mid = s.mid := by unfold signal; split <;> rfl
+
+/-- the new state has a pump token -/
+theorem wake_ptok {s' : St} (ht : pumpTok s'.pump = true)
+    (hr : ∀ q, heldQ s'.pump = some q → s'.cur = some q ∨ s'.reqs > 0 ∨ s'.link = .dl2) : Wake s' :=
+  ⟨fun _ => Or.inr (Or.inr (Or.inr (Or.inr (Or.inr (Or.inr ht))))), hr⟩
+
+/-- the new state is not dispatchable -/
+theorem wake_nd {s' : St} (hn : ¬ Dispatchable s')
+    (hr : ∀ q, heldQ s'.pump = some q → s'.cur = some q ∨ s'.reqs > 0 ∨ s'.link = .dl2) : Wake s' :=
+  ⟨fun hd => absurd hd hn, hr⟩
+
+/-- a step of the pump from a program point that holds no token to one that holds no queue: nothing relevant changes -/
+theorem wake_quiet {s s' : St} (h : Wake s) (e1 : s'.cur = s.cur) (e2 : s'.qs = s.qs) (e3 : s'.pend = s.pend)
+    (e4 : s'.reqs = s.reqs) (e5 : s'.ready = s.ready) (e6 : s'.sigw = s.sigw) (e7 : s'.mid = s.mid) (e8 : s'.link = s.link)
+    (e9 : s'.reader = s.reader) (hp : pumpTok s.pump = false) (hq : heldQ s'.pump = none) : Wake s' := by
+  refine ⟨fun hd => ?_, fun q hh => by rw [hq] at hh; cases hh⟩
+  have hd0 : Dispatchable s := by
+    obtain ⟨i, a, b, c⟩ := hd
+    exact ⟨i, by rw [← e1]; exact a, by rw [← e2]; exact b, by rw [← e3]; exact c⟩
+  rcases h.w hd0 with t | t | t | t | t | t | t
+  · left; rw [e4]; exact t
+  · right; left; rw [e5]; exact t
+  · right; right; left; rw [e6]; exact t
+  · right; right; right; left; rw [e7]; exact t
+  · right; right; right; right; left; rw [e8]; exact t
+  · right; right; right; right; right; left; rw [e9]; exact t
+  · rw [hp] at t; cases t
+
+/-- a step of another thread that keeps or adds tokens and does not touch the pump -/
+theorem wake_other {s s' : St} (h : Wake s) (e1 : s'.cur = s.cur) (e2 : s'.qs = s.qs) (e3 : s'.pend = s.pend)
+    (e8 : s'.link = s.link) (ep : s'.pump = s.pump) (hreq : s.reqs ≤ s'.reqs)
+    (ht : Tok s → Tok s') : Wake s' := by
+  refine ⟨fun hd => ?_, fun q hh => ?_⟩
+  · have hd0 : Dispatchable s := by
+      obtain ⟨i, a, b, c⟩ := hd
+      exact ⟨i, by rw [← e1]; exact a, by rw [← e2]; exact b, by rw [← e3]; exact c⟩
+    exact ht (h.w hd0)
+  · rw [ep] at hh
+    rcases h.r q hh with t | t | t
+    · left; rw [e1]; exact t
+    · right; left; omega
+    · right; right; rw [e8]; exact t
+
+/-- a state that has just been given a ready signal -/
+theorem wake_signal {s s' : St} (e1 : s'.ready = (signal s).ready) (e2 : s'.sigw = (signal s).sigw) (hq : heldQ s'.pump = none) :
+    Wake s' := by
+  refine ⟨fun _ => ?_, fun q hh => by rw [hq] at hh; cases hh⟩
+  rcases signal_tok s with t | t
+  · right; left; rw [e1]; exact t
+  · right; right; left; rw [e2]; exact t
+
+theorem heldQ_after (d w : Bool) (h : Nat) : heldQ (afterCompletion d w h) = none := by
+  unfold afterCompletion; split <;> rfl
+
+theorem wake_pstep {s s' : St} (h : Wake s) (hs : pumpStep s = some s') : Wake s' := by
+  unfold pumpStep at hs
+  cases hp : s.pump <;> simp only [hp] at hs
+  case sel => cases hs
+  case wr => cases hs
+  case rq1 =>
+    cases hs
+    cases hc : s.cur with
+    | none => exact wake_nd (by intro ⟨i, a, _⟩; cases a) (by intro q hh; simp [heldQ] at hh)
+    | some qi => exact wake_ptok (by simp [pumpTok]) (by intro q hh; simp [heldQ] at hh; left; simp [hh])
+  case rqDel =>
+    cases hs
+    exact wake_quiet h (by simp) (by simp) (by simp) (by simp [cancelCtx]; split <;> rfl) (by simp [cancelCtx]; split <;> rfl)
+      (by simp [cancelCtx]; split <;> rfl) (by simp [cancelCtx]; split <;> rfl) (by simp) (by simp [cancelCtx]; split <;> rfl)
+      (by rw [hp]; rfl) rfl
+  case rq2 qi =>
+    cases hs
+    have hr := h.r qi (by rw [hp]; rfl)
+    have tok : ∀ c, Wake { s with ctx := c, pump := .g1 qi } := fun c =>
+      wake_ptok rfl (by intro q hh; simp [heldQ] at hh; subst hh; exact hr)
+    have nd : s.pend.isNone = false → ∀ c, Wake { s with ctx := c, pump := .sel } := fun hn c => by
+      refine wake_nd ?_ (by intro q hh; simp [heldQ] at hh)
+      intro ⟨i, _, _, c⟩
+      simp only at c
+      simp [c] at hn
+    cases hctx : s.ctx with
+    | absent => exact tok _
+    | zero => exact tok _
+    | active k =>
+      by_cases hn : s.pend.isNone = true
+      · simp only [hn, if_true]; exact tok _
+      · simp only [hn, Bool.false_eq_true, if_false]; exact nd (by cases hpd : s.pend <;> simp_all) _
+  case tm1 k =>
+    split at hs <;> cases hs <;>
+      exact wake_quiet h rfl rfl rfl rfl rfl rfl rfl rfl rfl (by rw [hp]; rfl) rfl
+  case tm2 =>
+    cases hs
+    refine wake_quiet h rfl rfl rfl rfl rfl rfl rfl rfl rfl (by rw [hp]; rfl) ?_
+    dsimp only; split <;> rfl
+  case tm3 =>
+    cases hs
+    refine wake_quiet h rfl rfl rfl rfl rfl rfl rfl rfl rfl (by rw [hp]; rfl) ?_
+    dsimp only; cases s.cur <;> rfl
+  case tm4 qi =>
+    cases hs
+    exact wake_quiet h rfl rfl rfl rfl rfl rfl rfl rfl rfl (by rw [hp]; rfl) rfl
+  case tm5 oh =>
+    cases oh with
+    | none => cases hs; exact wake_quiet h rfl rfl rfl rfl rfl rfl rfl rfl rfl (by rw [hp]; rfl) rfl
+    | some hh =>
+      cases hs
+      refine wake_quiet h rfl rfl rfl rfl rfl rfl rfl rfl rfl (by rw [hp]; rfl) ?_
+      dsimp only; split <;> rfl
+  case tmO =>
+    cases hs
+    by_cases e : s.pend.isSome = true
+    · simp only [e, if_true]
+      exact wake_ptok rfl (by intro q hh; simp [heldQ] at hh)
+    · have e' : s.pend = none := by cases hpd : s.pend <;> simp_all
+      simp only [e, Bool.false_eq_true, if_false]
+      exact wake_quiet h rfl rfl (by simp [e']) rfl rfl rfl rfl rfl rfl (by rw [hp]; rfl) rfl
+  case tmOS => cases hs; exact wake_signal (s := s) rfl rfl rfl
+  case cp1 w hh =>
+    cases hs
+    refine wake_quiet h rfl rfl rfl rfl rfl rfl rfl rfl rfl (by rw [hp]; rfl) ?_
+    dsimp only; cases s.cur
+    · exact heldQ_after _ _ _
+    · rfl
+  case cp2 w hh qi =>
+    cases hs
+    by_cases he : (complete s hh qi).2 = true
+    · simp only [he, if_true]
+      exact wake_ptok rfl (by intro q hq; simp [heldQ] at hq)
+    · have he' : (complete s hh qi).2 = false := by simpa using he
+      obtain ⟨h1, _⟩ := complete_noeff s hh qi he'
+      simp only [he', Bool.false_eq_true, if_false, h1]
+      exact wake_quiet h rfl rfl rfl rfl rfl rfl rfl rfl rfl (by rw [hp]; rfl) (heldQ_after _ _ _)
+  case cp3 w hh =>
+    cases hs
+    exact wake_signal (s := s) rfl rfl (heldQ_after _ _ _)
+  case wfO hh =>
+    cases hs
+    by_cases e : (s.pend == some hh) = true
+    · simp only [e, if_true]; exact wake_ptok rfl (by intro q hq; simp [heldQ] at hq)
+    · simp only [e, Bool.false_eq_true, if_false]
+      exact wake_quiet h rfl rfl rfl rfl rfl rfl rfl rfl rfl (by rw [hp]; rfl) rfl
+  case wfOS hh => cases hs; exact wake_signal (s := s) rfl rfl rfl
+  case cb w hh =>
+    split at hs
+    · cases hs
+    · cases hs; exact wake_quiet h rfl rfl rfl rfl rfl rfl rfl rfl rfl (by rw [hp]; rfl) rfl
+  case rd1 =>
+    split at hs
+    · cases hs; split <;> exact wake_ptok rfl (by intro q hq; simp [heldQ] at hq)
+    · cases hs; exact wake_ptok rfl (by intro q hq; simp [heldQ] at hq)
+  case rd2 =>
+    cases hs
+    cases hc : s.cur with
+    | none => exact wake_nd (by intro ⟨i, a, _⟩; cases a) (by intro q hh; simp [heldQ] at hh)
+    | some qi => exact wake_ptok (by simp [pumpTok]) (by intro q hh; simp [heldQ] at hh; left; simp [hh])
+  case g1 qi =>
+    cases hs
+    have hr := h.r qi (by rw [hp]; rfl)
+    split
+    · exact wake_ptok (by simp [pumpTok]) (by intro q hh; simp [heldQ] at hh; subst hh; exact hr)
+    · rename_i hn
+      refine wake_nd ?_ (by intro q hh; simp [heldQ] at hh)
+      intro ⟨i, _, _, c⟩
+      simp only at c
+      apply hn; simp [c]
+  case g2 qi =>
+    cases hs
+    have hr := h.r qi (by rw [hp]; rfl)
+    split
+    · rename_i hem
+      refine ⟨fun hd => ?_, by intro q hh; simp [heldQ] at hh⟩
+      obtain ⟨i, a, b, _⟩ := hd
+      simp only at a b
+      rcases hr with t | t | t
+      · rw [t] at a; cases a
+        exfalso; apply b; simpa using hem
+      · left; exact t
+      · right; right; right; right; left; exact t
+    · exact wake_ptok rfl (by intro q hh; simp [heldQ] at hh)
+  case d1 =>
+    cases hs
+    cases hc : s.cur with
+    | none => exact wake_nd (by intro ⟨i, a, _⟩; cases a) (by intro q hh; simp [heldQ] at hh)
+    | some qj => exact wake_ptok (by simp [pumpTok]) (by intro q hh; simp [heldQ] at hh; left; simp [hh])
+  case d2 qj =>
+    have hr := h.r qj (by rw [hp]; rfl)
+    cases hq : getQ s.qs qj with
+    | nil =>
+      simp only [hq] at hs; cases hs
+      refine ⟨fun hd => ?_, by intro q hh; simp [heldQ] at hh⟩
+      obtain ⟨i, a, b, _⟩ := hd
+      simp only at a b
+      rcases hr with t | t | t
+      · rw [t] at a; cases a
+        exact absurd hq b
+      · left; exact t
+      · right; right; right; right; left; exact t
+    | cons a t =>
+      simp only [hq] at hs; cases hs
+      exact wake_ptok rfl (by intro q hh; simp [heldQ] at hh)
+  case d3 hh =>
+    cases hs
+    refine wake_nd ?_ (by intro q hq; simp [heldQ] at hq)
+    intro ⟨i, _, _, c⟩
+    simp only at c
+    cases hpd : s.pend <;> simp [hpd] at c
+  case d4 =>
+    cases hs
+    split <;> exact wake_quiet h rfl rfl rfl rfl rfl rfl rfl rfl rfl (by rw [hp]; rfl) rfl
+
+
+theorem wake_rstep {s s' : St} (h : Wake s) (hs : readerStep s = some s') : Wake s' := by
+  unfold readerStep at hs
+  -- a reader step from a point without token that only moves the reader
+  have quiet : ∀ rd : Reader, readerTok s.reader = false → Wake { s with reader := rd } := by
+    intro rd hrt
+    refine wake_other h rfl rfl rfl rfl rfl (Nat.le_refl _) ?_
+    intro t
+    rcases t with t | t | t | t | t | t | t
+    · exact Or.inl t
+    · exact Or.inr (Or.inl t)
+    · exact Or.inr (Or.inr (Or.inl t))
+    · exact Or.inr (Or.inr (Or.inr (Or.inl t)))
+    · exact Or.inr (Or.inr (Or.inr (Or.inr (Or.inl t))))
+    · rw [hrt] at t; cases t
+    · exact Or.inr (Or.inr (Or.inr (Or.inr (Or.inr (Or.inr t)))))
+  cases hr : s.reader <;> simp only [hr] at hs
+  case idle => cases hs
+  case got id => cases hs; exact quiet _ (by rw [hr]; rfl)
+  case lk id => cases hs; exact quiet _ (by rw [hr]; rfl)
+  case c1 id => cases hs; exact quiet _ (by rw [hr]; rfl)
+  case hd id => cases hs; exact quiet _ (by rw [hr]; rfl)
+  case c3 id =>
+    cases hs
+    refine ⟨fun _ => ?_, fun q hh => ?_⟩
+    · rcases signal_tok s with t | t
+      · right; left; exact t
+      · right; right; left; exact t
+    · have := h.r q (by simpa using hh)
+      simpa using this
+  case c2 id qi =>
+    cases hs
+    by_cases he : (complete s id qi).2 = true
+    · simp only [he, if_true]
+      obtain ⟨t, _, hc⟩ := complete_eff s id qi he
+      refine ⟨fun _ => Or.inr (Or.inr (Or.inr (Or.inr (Or.inr (Or.inl rfl))))), fun q hh => ?_⟩
+      rw [hc] at hh ⊢
+      exact h.r q hh
+    · have he' : (complete s id qi).2 = false := by simpa using he
+      obtain ⟨h1, _⟩ := complete_noeff s id qi he'
+      simp only [he', Bool.false_eq_true, if_false, h1]
+      exact quiet _ (by rw [hr]; rfl)
+
+theorem tok_mono {s s' : St} (e1 : s.reqs ≤ s'.reqs) (e2 : s.ready = .me → s'.ready = .me) (e3 : s.sigw ≤ s'.sigw) (e4 : s.mid ≤ s'.mid)
+    (e5 : s'.link = s.link) (e6 : s'.reader = s.reader) (e7 : s'.pump = s.pump) (t : Tok s) : Tok s' := by
+  rcases t with t | t | t | t | t | t | t
+  · left; omega
+  · right; left; exact e2 t
+  · right; right; left; omega
+  · right; right; right; left; omega
+  · right; right; right; right; left; rw [e5]; exact t
+  · right; right; right; right; right; left; rw [e6]; exact t
+  · right; right; right; right; right; right; rw [e7]; exact t
+
+theorem wake_step {s s' : St} (hi : Inv s) (h : Wake s) (l : Label) (hs : step s l = some s') : Wake s' := by
+  cases l <;> simp only [step] at hs
+  case sget =>
+    split at hs
+    · cases hs; exact wake_other h rfl rfl rfl rfl rfl (Nat.le_refl _) (tok_mono (Nat.le_refl _) id (Nat.le_refl _) (Nat.le_refl _) rfl rfl rfl)
+    · cases hs
+  case push id qi =>
+    split at hs
+    · cases hs
+    · cases hs
+      exact ⟨fun _ => Or.inr (Or.inr (Or.inr (Or.inl (by simp)))), fun q hh => h.r q hh⟩
+  case notify =>
+    split at hs
+    · cases hs
+      exact ⟨fun _ => Or.inl (by simp), fun q hh => by
+        rcases h.r q hh with t | t | t
+        · exact Or.inl t
+        · exact Or.inr (Or.inl (by simp))
+        · exact Or.inr (Or.inr t)⟩
+    · cases hs
+  case takeReq =>
+    split at hs
+    · cases hs; exact wake_ptok rfl (by intro q hh; simp [heldQ] at hh)
+    · cases hs
+  case takeTimer =>
+    split at hs
+    · rename_i hp
+      have hsel : s.pump = .sel := by simpa using hp
+      split at hs
+      · cases hs
+        exact wake_quiet h rfl rfl rfl rfl rfl rfl rfl rfl rfl (by rw [hsel]; rfl) rfl
+      · cases hs
+    · cases hs
+  case takeReady =>
+    split at hs
+    · cases hs; exact wake_ptok rfl (by intro q hh; simp [heldQ] at hh)
+    · cases hs
+  case takeOther =>
+    split at hs
+    · rename_i hc
+      cases hs
+      have hro : s.ready = .other := by simp at hc; exact hc.2
+      exact wake_other h rfl rfl rfl rfl rfl (Nat.le_refl _)
+        (tok_mono (Nat.le_refl _) (fun e => by rw [hro] at e; cases e) (Nat.le_refl _) (Nat.le_refl _) rfl rfl rfl)
+    · cases hs
+  case otherReady =>
+    split at hs
+    · rename_i hc
+      cases hs
+      have hro : s.ready = .empty := by simpa using hc
+      exact wake_other h rfl rfl rfl rfl rfl (Nat.le_refl _)
+        (tok_mono (Nat.le_refl _) (fun e => by rw [hro] at e; cases e) (Nat.le_refl _) (Nat.le_refl _) rfl rfl rfl)
+    · cases hs
+  case pstep => exact wake_pstep h hs
+  case writeOk =>
+    split at hs
+    · rename_i hh hp
+      cases hs
+      exact wake_quiet h rfl rfl rfl rfl rfl rfl rfl rfl rfl (by rw [hp]; rfl) rfl
+    · cases hs
+  case writeFail =>
+    split at hs
+    · rename_i hh hp
+      cases hs
+      exact wake_quiet h rfl rfl rfl rfl rfl rfl rfl rfl rfl (by rw [hp]; rfl) rfl
+    · cases hs
+  case fire k =>
+    split at hs
+    · cases hs; exact wake_other h rfl rfl rfl rfl rfl (Nat.le_refl _) (tok_mono (Nat.le_refl _) id (Nat.le_refl _) (Nat.le_refl _) rfl rfl rfl)
+    · cases hs
+  case sigPost =>
+    split at hs
+    · cases hs
+      exact ⟨fun _ => Or.inr (Or.inl rfl), fun q hh => h.r q hh⟩
+    · cases hs
+  case reply id =>
+    split at hs
+    · rename_i hr
+      cases hs
+      refine wake_other h rfl rfl rfl rfl rfl (Nat.le_refl _) ?_
+      intro t
+      rcases t with t | t | t | t | t | t | t
+      · exact Or.inl t
+      · exact Or.inr (Or.inl t)
+      · exact Or.inr (Or.inr (Or.inl t))
+      · exact Or.inr (Or.inr (Or.inr (Or.inl t)))
+      · exact Or.inr (Or.inr (Or.inr (Or.inr (Or.inl t))))
+      · rw [hr] at t; cases t
+      · exact Or.inr (Or.inr (Or.inr (Or.inr (Or.inr (Or.inr t)))))
+    · cases hs
+  case rstep => exact wake_rstep h hs
+  case disc =>
+    split at hs
+    · cases hs
+      exact ⟨fun ⟨i, a, _⟩ => (by cases a), fun q _ => Or.inr (Or.inr rfl)⟩
+    · cases hs
+  case lstep =>
+    split at hs
+    · cases hs
+    · cases hs
+      exact ⟨fun _ => Or.inl (by simp), fun q _ => Or.inr (Or.inl (by simp))⟩
+    · rename_i hl
+      cases hs
+      have hc : s.cur = none := hi.lk (by rw [hl]; simp)
+      refine ⟨fun ⟨i, a, _⟩ => (by simp only at a; rw [hc] at a; cases a), fun q hh => ?_⟩
+      rcases h.r q hh with t | t | t
+      · rw [hc] at t; cases t
+      · exact Or.inr (Or.inl t)
+      · rw [hl] at t; cases t
+  case connect =>
+    split at hs
+    · rename_i hc
+      cases hs
+      have hl : s.link = .idle := by simp at hc; exact hc.1
+      have hcn : s.cur = none := by simp at hc; exact hc.2
+      refine ⟨fun ⟨i, a, b, _⟩ => ?_, fun q hh => ?_⟩
+      · simp only at a b
+        cases a
+        rw [getQ_new, getQ_oob s.qs _ (Nat.le_refl _)] at b
+        exact absurd rfl b
+      · rcases h.r q hh with t | t | t
+        · rw [hcn] at t; cases t
+        · exact Or.inr (Or.inl t)
+        · rw [hl] at t; cases t
+    · cases hs
+
+theorem wake_run (t d k : Bool) (ls : List Label) (s : St) (h : runL { tmo := t, dropW := d, sendLock := k } ls = some s) :
+    Inv s ∧ Wake s := by
+  suffices ∀ (s0 : St), Inv s0 ∧ Wake s0 → ∀ ls s, runL s0 ls = some s → Inv s ∧ Wake s from
+    this _ ⟨inv_init t d k, wake_init t d k⟩ ls s h
+  intro s0 h0 ls
+  induction ls generalizing s0 with
+  | nil => intro s h; simp [runL] at h; subst h; exact h0
+  | cons l ls ih =>
+    intro s h
+    simp only [runL] at h
+    cases hst : step s0 l with
+    | none => simp [hst] at h
+    | some s1 => simp only [hst] at h; exact ih s1 ⟨inv_step h0.1 l hst, wake_step h0.1 h0.2 l hst⟩ s h
+
+/-- C07 (progress clause, server dispatcher, every interleaving): whenever the pump is parked at its select and nothing
+    is on its way to it - no wake-up in the request channel, the client's ready token neither in the slot nor with a
+    goroutine waiting for the slot, no sender between push and wake-up, no disconnection before its wake-up, the reader
+    not about to post the ready signal - then there is nothing the pump could dispatch for this client: its current queue
+    is empty or a request is pending (whose reply, expiry or failed write will signal). No wake-up is ever lost. -/
+theorem no_lost_wakeup {s : St} (h : Reach s) (hp : s.pump = .sel) (h1 : s.reqs = 0) (h2 : s.ready ≠ .me) (h3 : s.sigw = 0)
+    (h4 : s.mid = 0) (h5 : s.link ≠ .dl2) (h6 : ∀ id, s.reader ≠ .c3 id) : ¬ Dispatchable s := by
+  obtain ⟨t, d, k, ls, hr⟩ := h
+  intro hd
+  rcases (wake_run t d k ls s hr).2.w hd with t | t | t | t | t | t | t
+  · omega
+  · exact h2 t
+  · omega
+  · omega
+  · exact h5 t
+  · cases hrd : s.reader <;> rw [hrd] at t <;> simp [readerTok] at t
+    exact h6 _ hrd
+  · rw [hp] at t; cases t
+
+/-- non-vacuity: a reachable parked state in which something is dispatchable exists (a token is waiting there) -/
+example : ∃ s, Reach s ∧ s.pump = .sel ∧ Dispatchable s :=
+  ⟨_, ⟨true, true, true, [.connect, .sget, .push 1 0, .notify], rfl⟩, rfl, ⟨0, rfl, by decide, rfl⟩⟩
+
 /-! ### non-vacuity and the defect the model exposed -/
 
 /-- the interleaving of scenario `s-orphan-write-fails`: the client reconnects between the pump's queue lookup and its
